@@ -329,3 +329,106 @@ def run(db, cx):
         cx.ob("C10.7-depth-validated", "insert_volume folds calc_max_depth(logic) into max_logic_depth "
               "on every returning path", okp and src_ok, "", short(f.loc), path=f.path_locs(path),
               why="a volume whose depth is not recorded escapes the capacity validation")
+
+    replacer_inference(db, cx)
+
+
+def replacer_inference(db, cx):
+    """C10.8: the constant-propagation step of replace_and_simplify (NodeReplacer) may only
+    infer what the boolean operators imply.  Audited table: alias -> same value; joined:
+    (true, AND) -> all daughters true, (false, OR) -> all daughters false, and for
+    (true, OR) / (false, AND) nothing about any daughter.  The visitor's CFG is explored for
+    each (value, operator) pair with the branches on `repl`/`n.op` decided and every other
+    branch taken both ways; each reachable `update(daughter, v)` is classified by v."""
+    NR = C + "orangeinp::detail::NodeReplacer::"
+    fs = [f for f in db.get(NR + "operator()") if f.r["params"]]
+    cx.require(fs, "anchor NodeReplacer::operator() not found")
+    joined = [f for f in fs if "Joined" in f.r["params"][0]["ty"]]
+    aliased = [f for f in fs if "Aliased" in f.r["params"][0]["ty"]]
+    cx.require(joined and aliased, "NodeReplacer overloads for Joined/Aliased not found")
+    REPLF = "F:" + NR + "repl_"
+
+    def value_of(f, arg, env):
+        if arg.get("enum"):
+            return arg["enum"].split("::")[-1]
+        refs = arg.get("refs", [])
+        loc = local_refs(refs)
+        if REPLF in refs and not loc:
+            return "param"
+        if len(loc) == 1 and next(iter(loc)) in env:
+            return env[next(iter(loc))]
+        return "?" + arg.get("t", "")
+
+    for f in aliased:
+        vals = set(value_of(f, e["args"][1], {}) for (_b, _i, e) in f.calls(NR + "update"))
+        cx.ob("C10.8-replacer-inference", "alias: the target takes the value of the alias", vals == {"param"},
+              "update(..., %s)" % sorted(vals), short(f.loc),
+              why="an alias has the value of its target")
+
+    for f in joined:
+        pn = f.r["params"][0]["n"]
+        for R in ("known_true", "known_false"):
+            for OP in ("op_and", "op_or"):
+                # exhaustive walk: state = (block, index, env of locals bound to param/enumerators)
+                seen = set()
+                found = {}     # value -> loc
+                in_loop_over_nodes = {}
+                init_env = {}
+                work = [(f.entry, 0, tuple())]
+                steps = 0
+                while work and steps < 20000:
+                    steps += 1
+                    b, i, envt = work.pop()
+                    env = dict(envt)
+                    evs = f.blocks[b]["ev"]
+                    for k in range(i, len(evs)):
+                        e = evs[k]
+                        if e["e"] == "def" and e.get("var"):
+                            v = e["var"]
+                            if e.get("enum"):
+                                env[v] = e["enum"].split("::")[-1]
+                            elif REPLF in e.get("refs", []) and not local_refs(e.get("refs", [])) \
+                                    and not e.get("calls"):
+                                env[v] = "param"
+                            elif v in env:
+                                env.pop(v)
+                        if e["e"] == "call" and e["callee"] == NR + "update" and len(e.get("args", [])) == 2:
+                            found.setdefault(value_of(f, e["args"][1], env), short(e["loc"]))
+                    blk = f.blocks[b]
+                    succ = blk["succ"]
+                    c = blk.get("cond")
+                    idxs = [ix for ix in range(len(succ)) if succ[ix] is not None]
+                    if c and len(succ) == 2 and c.get("op") in ("==", "!="):
+                        t = None
+                        lv = local_refs(c.get("lrefs", []))
+                        if c.get("renum") and ((len(lv) == 1 and env.get(next(iter(lv))) == "param")
+                                               or (REPLF in c.get("lrefs", []) and not lv)):
+                            t = c["renum"].split("::")[-1] == R
+                        elif "F:" + C + "orangeinp::Joined::op" in c.get("lrefs", []) and \
+                                set(c.get("rrefs", [])) & {"op_and", "op_or"}:
+                            t = (set(c["rrefs"]) & {"op_and", "op_or"}).pop() == OP
+                        if t is not None:
+                            if c["op"] == "!=":
+                                t = not t
+                            if c.get("neg"):
+                                t = not t
+                            idxs = [0 if t else 1]
+                    for ix in idxs:
+                        sx = succ[ix]
+                        if sx is None:
+                            continue
+                        key = (sx, tuple(sorted(env.items())))
+                        if key not in seen:
+                            seen.add(key)
+                            work.append((sx, 0, tuple(sorted(env.items()))))
+                provable = (R, OP) in (("known_true", "op_and"), ("known_false", "op_or"))
+                want = {"param"} if provable else {"unknown"}
+                ok = set(found) == want
+                cx.ob("C10.8-replacer-inference", "joined (%s, %s): daughters receive %s" % (
+                    R, OP, "the join's value" if provable else "no information"), ok,
+                    "update(daughter, v) reachable with v in %s" % sorted(found.items()),
+                    short(f.loc),
+                    why="a true OR / false AND does not determine its daughters: forcing one of them "
+                        "replaces a live surface by a constant in the whole universe, which changes "
+                        "the region's boolean function (an inference that is not in this audited "
+                        "table has to be reviewed and added to it)")
